@@ -77,6 +77,7 @@ impl TaskManager {
 
 					// Flush ALL pending immutable memtables in a loop
 					let mut flush_count = 0;
+					let mut failed = false;
 					loop {
 						match core.compact_memtable() {
 							Ok(()) => {
@@ -92,6 +93,7 @@ impl TaskManager {
 								core.error_handler()
 									.set_error(e, BackgroundErrorReason::MemtablaFlush);
 								write_stall.signal_shutdown();
+								failed = true;
 								break;
 							}
 						}
@@ -111,6 +113,14 @@ impl TaskManager {
 					#[cfg(feature = "verif")]
 					crate::verif::point("task.flush.before_idle");
 					running.store(false, Ordering::SeqCst);
+
+					// A rotation that happened after the last look at the queue saw
+					// `running == true` and did not notify. Going idle now would leave
+					// that memtable unflushed with nobody to wake this task again (the
+					// writers end up in the write stall): pick it up instead.
+					if !failed && !stop_flag.load(Ordering::SeqCst) && core.has_pending_immutables() {
+						notify.notify_one();
+					}
 				}
 			});
 			task_handles.lock().unwrap().as_mut().unwrap().push(handle);
@@ -143,11 +153,13 @@ impl TaskManager {
 					// One round per wake-up is not enough: writers stalled on the L0
 					// file count produce no further flush, so nothing would wake this
 					// task again while L0 is still over the limit.
+					let mut failed = false;
 					loop {
 						if let Err(e) = core.compact(Arc::clone(&strategy)) {
 							log::error!("Level compaction task error: {e:?}");
 							core.error_handler().set_error(e, BackgroundErrorReason::Compaction);
 							write_stall.signal_shutdown();
+							failed = true;
 							break;
 						}
 						log::debug!("Level compaction completed successfully");
@@ -161,6 +173,15 @@ impl TaskManager {
 					#[cfg(feature = "verif")]
 					crate::verif::point("task.level.before_idle");
 					running.store(false, Ordering::SeqCst);
+
+					// Same window as in the flush task: a wake-up that arrived while
+					// `running` was still set was dropped.
+					if !failed
+						&& !stop_flag.load(Ordering::SeqCst)
+						&& core.has_pending_compaction(strategy.as_ref())
+					{
+						notify.notify_one();
+					}
 				}
 			});
 			task_handles.lock().unwrap().as_mut().unwrap().push(handle);
